@@ -22,7 +22,14 @@ let show_out = function
 let run_case (line : string) : string =
   let ops = Stdlib.List.map parse_op (words line) in
   let tr = run [] ops in
-  String.concat " " (Stdlib.List.map (fun (o, m) -> show_out o ^ "=" ^ show_map m ^ ";") tr)
+  (* the original of the last successful copy is an immutable value in the model;
+     it is printed so that the implementation's original can be compared with it *)
+  let frozen = ref None and prev = ref [] in
+  String.concat " " (Stdlib.List.map (fun (o, m) ->
+    (match o with OutCopy true -> frozen := Some !prev | _ -> ());
+    prev := m;
+    show_out o ^ "=" ^ show_map m ^ ";" ^
+    (match !frozen with Some f -> "~" ^ show_map f ^ ";" | None -> "")) tr)
 
 (* spec mode: "<before-map> | <op> | <after-map>|<out>" -> check the spec on the
    implementation's own answers (impl-vs-spec search).  Prints "ok" or the reason. *)
